@@ -297,4 +297,148 @@ Section P.
       + destruct S as [[Es [Ec [Ed Ei]]] [Ef Ep]]. subst pio. rewrite unwind_s. rewrite close_data_open by congruence. cbn.
         split; [exact Ef|]. split; [reflexivity|]. repeat split; try congruence. left; reflexivity.
   Qed.
+
+  (* ---- what a handler may do when one of its backend calls raised *)
+  Definition sfirst : Prop := stream_first cstor /\ stream_first cretr.
+
+  Definition hspec (w : fw) (r : res bool) : Prop :=
+    match r with
+    | Ok _ w' => fw_faults w' = fw_faults w
+    | Fault pio w' =>
+        fw_faults w < fw_faults w' /\ pio = true /\ same_ctl (fw_s w) (fw_s w') /\ fw_info w' = fw_info w /\
+        (s_rnfr (fw_s w') = s_rnfr (fw_s w) \/ (s_rnfr (fw_s w') = None /\ log_head w' "rename")) /\
+        ( (fw_codes w' = fw_codes w /\ fw_dst w' = fw_dst w /\ s_data (fw_s w') = s_data (fw_s w))
+          \/ (fw_codes w' = fw_codes w ++ [c150] /\ s_data (fw_s w) = true /\ s_data (fw_s w') = false /\
+              s_rnfr (fw_s w') = s_rnfr (fw_s w) /\
+              (fw_dst w' = StClosed \/ (fw_dst w' = StOpen /\ log_head w' "open")) /\
+              (sfirst -> fw_dst w' = StClosed)) )
+    end.
+
+  Lemma hspec_transport w w1 r :
+    frame w w1 -> fw_faults w1 = fw_faults w -> hspec w1 r -> hspec w r.
+  Proof.
+    intros [Es [Ec [Ed Ei]]] Ef. destruct r as [b w'|pio w']; cbn [hspec].
+    - congruence.
+    - rewrite Es, Ec, Ed, Ei, Ef. exact (fun H => H).
+  Qed.
+
+  Lemma hspec_of_rspec_fault w pio w' : rspec w (@Fault bool pio w') -> hspec w (Fault pio w').
+  Proof.
+    intros [[Es [Ec [Ed Ei]]] [Ef Ep]]. cbn [hspec]. rewrite Es.
+    split; [exact Ef|]. split; [exact Ep|]. split; [apply same_ctl_refl|]. split; [exact Ei|].
+    split; [left; reflexivity|]. left. repeat split; assumption.
+  Qed.
+
+  Lemma spawn_spec items worker w :
+    (items = cstor \/ items = cretr \/ items = clist \/ items = cmlsd) ->
+    (forall w1, fw_dst w1 = StOpen -> wspec items w1 (worker w1)) ->
+    hspec w (spawn worker w).
+  Proof.
+    intros Hi Hwk. unfold spawn. cbn [fw_s reply].
+    destruct (s_data (fw_s w)) eqn:D; [|reflexivity].
+    set (w1 := set_dst (upd_s (reply w (code "150")) (set_data (fw_s w) false)) StOpen).
+    specialize (Hwk w1 eq_refl). destruct (worker w1) as [b w'|pio w']; cbn [wspec hspec] in *.
+    - exact Hwk.
+    - destruct Hwk as [Ef [Ep [Es [Ec [Ei [Dd Nf]]]]]].
+      split; [exact Ef|]. split; [exact Ep|]. rewrite Es. cbn.
+      split; [repeat split|]. split; [exact Ei|]. split; [left; reflexivity|].
+      right. split; [rewrite Ec; reflexivity|]. split; [exact D|]. split; [reflexivity|]. split; [reflexivity|].
+      split; [exact Dd|]. intros [S1 S2]. apply Nf. intros [f [E Hf]].
+      assert (X : forall c, stream_first c -> c = [f; "stream"%string] -> False).
+      { intros c [g [Eg Hg]] Ec'. rewrite Eg in Ec'. inversion Ec'; subst. discriminate. }
+      destruct Hi as [Hi|[Hi|[Hi|Hi]]]; subst items.
+      + exact (X _ S1 E).
+      + exact (X _ S2 E).
+      + rewrite Hlist in E. discriminate.
+      + rewrite Hmlsd in E. discriminate.
+  Qed.
+
+  Lemma shape_stor : file_first cstor \/ stream_first cstor \/ stream_only cstor.
+  Proof. destruct Hstor; auto. Qed.
+  Lemma shape_retr : file_first cretr \/ stream_first cretr \/ stream_only cretr.
+  Proof. destruct Hretr; auto. Qed.
+
+  (* ---- decorators *)
+  Lemma fdecos_spec ds arg body : forall w,
+    (forall w1, frame w w1 -> fw_faults w1 = fw_faults w -> hspec w1 (body w1)) ->
+    hspec w (fdecos users conds wrapped ds arg w body).
+  Proof.
+    induction ds as [|d ds IH]; intros w Hb; cbn [fdecos].
+    - apply Hb; [apply frame_refl|reflexivity].
+    - destruct d as [fields wait fc|cs|ps| |n].
+      + destruct (find _ fields); [reflexivity|]. apply IH. exact Hb.
+      + pose proof (fconds_spec cs (resolve (s_cwd (fw_s w)) arg) w) as S.
+        destruct (fconds conds wrapped cs (resolve (s_cwd (fw_s w)) arg) w) as [b w'|pio w'].
+        * destruct S as [F E]. destruct b; [|cbn; exact E].
+          apply (hspec_transport w w'); [exact F|exact E|]. apply IH.
+          intros w1 F1 E1. apply Hb; [eapply frame_trans; eauto|congruence].
+        * apply hspec_of_rspec_fault. exact S.
+      + destruct ps as [|f ps'].
+        * reflexivity.
+        * destruct (cur_user users (fw_s w)); [|reflexivity].
+          destruct (if String.eqb f "readable" then _ else _); [apply IH; exact Hb|reflexivity].
+      + apply IH; exact Hb.
+      + apply IH; exact Hb.
+  Qed.
+
+  (* ---- bodies *)
+  Definition self_ok (self : string -> text -> dataact -> bool -> fw -> res bool) : Prop :=
+    forall n a d ap w, hspec w (self n a d ap w).
+
+  Local Ltac fault_h :=
+    cbn; split; [lia|]; split; [reflexivity|]; split; [repeat split|]; split; [reflexivity|];
+    split; [left; reflexivity|]; left; repeat split.
+
+  Lemma fbody_spec self name arg d appe w :
+    self_ok self -> hspec w (fbody users wrapped cstor cretr clist cmlsd blk self name arg d appe w).
+  Proof.
+    intro SO. unfold fbody.
+    destruct (String.eqb name "mkd").
+    { match goal with |- context[call wrapped "mkdir" ?op w] =>
+        destruct (call_cases "mkdir" op w ltac:(wr)) as [[a [f ->]]| ->] end; [reflexivity|fault_h]. }
+    destruct (String.eqb name "rmd").
+    { match goal with |- context[call wrapped "rmdir" ?op w] =>
+        destruct (call_cases "rmdir" op w ltac:(wr)) as [[a [f ->]]| ->] end; [reflexivity|fault_h]. }
+    destruct (String.eqb name "dele").
+    { match goal with |- context[call wrapped "unlink" ?op w] =>
+        destruct (call_cases "unlink" op w ltac:(wr)) as [[a [f ->]]| ->] end; [reflexivity|fault_h]. }
+    destruct (String.eqb name "rnto").
+    { destruct (s_rnfr (fw_s w)) as [src|] eqn:R; [|reflexivity].
+      match goal with |- context[call wrapped "rename" ?op ?w0] =>
+        destruct (call_cases "rename" op w0 ltac:(wr)) as [[a [f ->]]| ->] end; [reflexivity|].
+      cbn. split; [lia|]. split; [reflexivity|]. split; [repeat split|]. split; [reflexivity|].
+      split; [right; split; [reflexivity|eexists; reflexivity]|]. left. repeat split. }
+    destruct (String.eqb name "mlst").
+    { pose proof (mlsx_entry_spec (resolve (s_cwd (fw_s w)) arg) w) as S.
+      destruct (mlsx_entry wrapped (resolve (s_cwd (fw_s w)) arg) w) as [b w'|pio w'].
+      - destruct S as [_ E]. exact E.
+      - apply hspec_of_rspec_fault. exact S. }
+    destruct (String.eqb name "list").
+    { apply (spawn_spec clist); [auto|]. intros w1 D1. apply scoped_spec; [right; right; exact Hlist|exact D1|].
+      intros pos w2. apply list_loop_spec. }
+    destruct (String.eqb name "mlsd").
+    { apply (spawn_spec cmlsd); [auto|]. intros w1 D1. apply scoped_spec; [right; right; exact Hmlsd|exact D1|].
+      intros pos w2. apply list_loop_spec. }
+    destruct (String.eqb name "retr").
+    { apply (spawn_spec cretr); [auto|]. intros w1 D1. apply scoped_spec; [exact shape_retr|exact D1|].
+      intros pos w2. apply retr_body_spec. }
+    destruct (String.eqb name "stor").
+    { match goal with |- context[call wrapped "is_dir" ?op w] =>
+        destruct (call_cases "is_dir" op w ltac:(wr)) as [[a [f ->]]| ->] end; [|fault_h].
+      destruct a; [|reflexivity].
+      set (w' := upd_fs (tick "is_dir" false w) f).
+      apply (hspec_transport w w'); [repeat split|reflexivity|].
+      apply (spawn_spec cstor); [auto|]. intros w1 D1. apply scoped_spec; [exact shape_stor|exact D1|].
+      intros pos w2. apply stor_body_spec. }
+    destruct (String.eqb name "cdup"); [apply SO|].
+    destruct (String.eqb name "appe"); [apply SO|].
+    destruct (body users no_self name arg d appe (to_world w)) as [[x o] keep]. reflexivity.
+  Qed.
+
+  Lemma fhandler_spec fuel : self_ok (fhandler users table conds wrapped cstor cretr clist cmlsd blk fuel).
+  Proof.
+    induction fuel as [|f IH]; intros n a d ap w; cbn [fhandler]; [reflexivity|].
+    destruct (handler_of table n) as [[ds dl]|]; [|reflexivity].
+    apply fdecos_spec. intros w1 F1 E1. apply fbody_spec. exact IH.
+  Qed.
 End P.
